@@ -65,7 +65,7 @@ class C05(Check):
         self.stats = {}
 
     def budget(self, tier, escalated):
-        n = 2400 if tier == 'quick' else 60000
+        n = 6000 if tier == "quick" else 240000
         return n * (4 if escalated and tier == 'quick' else 1)
 
     def nontrivial(self, sample):
@@ -104,7 +104,7 @@ class C05(Check):
                 raw, mut = mutate(rng, enc)
                 buf = bl.buf_for(rng, enc, rng.random() < .6)
             sched = bl.gen_sched(rng, max(1, len(raw)))
-            maxb = None if rng.random() < .85 else rng.randint(0, len(enc.payload()) + 2)
+            maxb = None      # size limits under chunked framing are exercised by C13
             meta = dict(chunks=len(enc.chunks), mut=mut, payload_len=len(enc.payload()))
             self._emit(out, rng, raw, buf, sched, maxb, meta, wsgi=(i % 3 == 2))
             bl.bump(st, f'chunks{len(enc.chunks)}')
@@ -212,7 +212,11 @@ class C05(Check):
             yield mk(probe='crlf-del', off=o + 1)
         offs = enc.framing_offsets()
         for o in (offs if dense else rng.sample(offs, min(3, len(offs)))):
-            yield mk(probe='subst', off=o, byte=rng.choice(bl.GARBAGE))
+            if dense == 'all':       # thorough tier: every byte of the framing alphabet at every framing offset
+                for b in sorted(set(bl.GARBAGE)):
+                    yield mk(probe='subst', off=o, byte=b)
+            else:
+                yield mk(probe='subst', off=o, byte=rng.choice(bl.GARBAGE))
 
     def search(self, rng, n, seeds):
         findings, evals, cases = [], 0, []
@@ -225,7 +229,7 @@ class C05(Check):
                  bl.Enc([], (b'0', b''), b'\r\n')]
         for enc in fixed:
             for buf in (enc.max_line(), 64):
-                cases += list(self._cases_of(rng, enc, buf, True))
+                cases += list(self._cases_of(rng, enc, buf, 'all' if n >= 20000 else True))
         for _ in range(max(1, n // 30)):
             enc = bl.gen_enc(rng)
             cases += list(self._cases_of(rng, enc, bl.buf_for(rng, enc, rng.random() < .85), False))
